@@ -19,6 +19,11 @@
 //	                                                      possible, the server produced a correct Finished
 //	sess=<n>:<chainSigNow>:<chainEncNow>|none sresume sfin  cached session (certificates recorded with it, verified
 //	                                                      under the configuration NOW in use), server echoed the id
+//	sevict=none|window|afterload psecret=…                (resumption impostors only) when the client's cache evicted
+//	                                                      the session relative to loadSession; the master secret the
+//	                                                      peer computed its Finished with; sfin there = the peer sent
+//	                                                      a Finished AND the secret it used equals, byte for byte, the
+//	                                                      one of the session in the client's cache
 //
 // The Lean oracle predicts the observation from the vector (model) and judges
 // "completed ⇒ Authenticated" (spec).
@@ -106,6 +111,9 @@ type scenario struct {
 	group  string   // A | B
 	// the Certificate message is not sent at all
 	omitCert bool
+	// Config.ServerName of the client when not the default DNS name (the documentation allows
+	// "the DNS name or IP in the certificate")
+	cname string
 }
 
 var catalogue = []scenario{
@@ -124,6 +132,9 @@ var catalogue = []scenario{
 	{name: "mixed-sig-wrong-name", peer: "real", chain: []string{"namesig", "srvenc"}, group: "A"},
 	{name: "mixed-enc-not-yet-valid", peer: "real", chain: []string{"srvsig", "futenc"}, group: "A"},
 	{name: "other-identity", peer: "real", chain: []string{"srv2sig", "srv2enc"}, group: "A"},
+	// the client is configured with an IP address as server name; the certificates are for a DNS name
+	{name: "wrong-name-ipv4", peer: "real", chain: []string{"srvsig", "srvenc"}, group: "A", cname: "192.0.2.1"},
+	{name: "wrong-name-ipv6", peer: "real", chain: []string{"srvsig", "srvenc"}, group: "A", cname: "[2001:db8::1]"},
 	// (A, scripted because the library's server refuses to start with them)
 	{name: "single-cert", peer: "script", chain: []string{"srvsig"}, group: "A"},
 	{name: "single-cert-twice", peer: "script", chain: []string{"srvsig", "srvsig"}, group: "A"},
@@ -278,13 +289,21 @@ type verdicts struct {
 	creq, clienc, done, ckx, fin bool
 	sess                         string // "none" or n:sig:enc
 	sresume, sfin                bool
+	sevict, psecret              string // resumption impostors only ("" = not printed)
 }
 
 func (v verdicts) String() string {
 	return fmt.Sprintf("peer=%s certmsg=%s ncerts=%d parse=%s c0=%s c1=%s skx=%s wf=%s sigvalid=%s signer=%s scr=%s ssr=%s sparams=%s intact=%s creq=%s clienc=%s done=%s ckx=%s fin=%s sess=%s sresume=%s sfin=%s",
 		v.peer, b01(v.certmsg), v.ncerts, b01(v.parse), v.c[0], v.c[1], b01(v.skx), b01(v.wf), b01(v.sigvalid),
 		v.signer, v.scr, v.ssr, v.sparams, b01(v.intact), b01(v.creq), b01(v.clienc), b01(v.done), b01(v.ckx), b01(v.fin),
-		v.sess, b01(v.sresume), b01(v.sfin))
+		v.sess, b01(v.sresume), b01(v.sfin)) + v.resumeSuffix()
+}
+
+func (v verdicts) resumeSuffix() string {
+	if v.sevict == "" {
+		return ""
+	}
+	return fmt.Sprintf(" sevict=%s psecret=%s", v.sevict, v.psecret)
 }
 
 type observation struct {
@@ -326,6 +345,8 @@ func classify(err error, panicked string) string {
 		return "skx-signature"
 	case strings.Contains(s, "requires a sm2 public key"):
 		return "skx-keytype"
+	case strings.Contains(s, "resumed a session without a master secret"):
+		return "resume-master"
 	case strings.Contains(s, "Finished message was incorrect"):
 		return "finished"
 	case strings.Contains(s, "bad record MAC"):
@@ -479,6 +500,11 @@ type scriptPeer interface {
 	WriteProtected() bool
 	HasMaster() bool
 	HeaderLen() int // length of the handshake header in front of the body handed to Mutate
+	// resumption: the session id the client offered; the master secret to resume with when the
+	// scripted server echoes it; the master secret the script computes with
+	OfferedSessionID() []byte
+	SetResumeMaster([]byte)
+	Master() []byte
 }
 
 // reframe puts body behind a copy of raw's handshake header (4 bytes: type, length; 12 bytes:
@@ -623,10 +649,22 @@ type scriptPlan struct {
 	sendCreq   bool
 	omitCert   bool
 	finMutate  func([]byte) []byte
+	// resumption impostor: when the client offers a session id, echo it and run the abbreviated
+	// handshake with this master secret (nil: never resume)
+	resumeSecret []byte
+	// called once the ClientHello has been read (the client is past loadSession)
+	afterHello func()
+}
+
+// scriptOutcome: what the scripted server did
+type scriptOutcome struct {
+	finSent bool   // it sent a Finished that is correct for ITS transcript and master secret
+	resumed bool   // … on the abbreviated flow
+	master  []byte // the master secret it computed with
 }
 
 // runScript: the library's client against the scripted server.
-func runScript(lk link, cc clientCfg, sc serverCfg, plan scriptPlan) (runResult, bool) {
+func runScript(lk link, cc clientCfg, sc serverCfg, plan scriptPlan) (runResult, scriptOutcome) {
 	cl, state := lk.client(cc)
 	sp := lk.scriptServer(sc)
 	var cerr error
@@ -634,12 +672,32 @@ func runScript(lk link, cc clientCfg, sc serverCfg, plan scriptPlan) (runResult,
 	cdone := make(chan struct{})
 	go func() { defer close(cdone); cerr, cpanic = guardErr(cl.Handshake) }()
 	finSent := false
+	var out scriptOutcome
 	sdone := make(chan struct{})
 	go func() {
 		defer close(sdone)
 		_ = hx.Guard(func() {
 			if k, err := sp.ReadKind(); err != nil || k != "ClientHello" {
 				return
+			}
+			if plan.afterHello != nil {
+				plan.afterHello()
+			}
+			if plan.resumeSecret != nil && len(sp.OfferedSessionID()) > 0 {
+				// abbreviated handshake: ServerHello echoing the id, ChangeCipherSpec, Finished —
+				// all computed with plan.resumeSecret — then the client's answer
+				sp.SetResumeMaster(plan.resumeSecret)
+				_ = sp.Send("ServerHello", scriptOpts{})
+				_ = sp.SendCCS()
+				out.resumed = true
+				out.finSent = sp.WriteProtected() && sp.Send("Finished", scriptOpts{}) == nil
+				out.master = sp.Master()
+				for {
+					k, err := sp.ReadKind()
+					if err != nil || k == "Alert" || k == "Finished" {
+						return
+					}
+				}
 			}
 			_ = sp.Send("ServerHello", scriptOpts{})
 			if !plan.omitCert {
@@ -671,6 +729,7 @@ func runScript(lk link, cc clientCfg, sc serverCfg, plan scriptPlan) (runResult,
 			honest := sp.PeerFinishedOK() && sp.WriteProtected() && plan.finMutate == nil
 			_ = sp.Send("Finished", scriptOpts{Mutate: plan.finMutate})
 			finSent = honest
+			out.master = sp.Master()
 		})
 	}()
 	select {
@@ -697,7 +756,10 @@ func runScript(lk link, cc clientCfg, sc serverCfg, plan scriptPlan) (runResult,
 	lk.closeBoth()
 	<-sdone
 	r.c2s, r.s2c = lk.wire()
-	return r, finSent
+	if !out.resumed {
+		out.finSent = finSent
+	}
+	return r, out
 }
 
 // ---------------------------------------------------------------------------- scenarios → cases
@@ -719,6 +781,9 @@ func flipLast(b []byte) []byte {
 func runScenario(cd caseDesc, sc scenario, su suiteInfo) (verdicts, observation, bool) {
 	tw := defaultClient
 	tw.skip = cd.skip
+	if sc.cname != "" {
+		tw.name = sc.cname
+	}
 	cc := clientCfg{tweak: tw, suite: su.id, certs: clientCerts(su)}
 	scfg := serverCfg{suite: su.id, certs: keyPairs(sc.chain, sc.sigKey, sc.encKey)}
 	signer := ""
@@ -852,8 +917,8 @@ func runScenario(cd caseDesc, sc scenario, su suiteInfo) (verdicts, observation,
 			return out
 		}
 	}
-	r, finOK := runScript(lk, cc, scfg, plan)
-	fullVerdicts(&v, su, r.c2s, r.s2c, tw, su.ecdhe, ts, finOK)
+	r, so := runScript(lk, cc, scfg, plan)
+	fullVerdicts(&v, su, r.c2s, r.s2c, tw, su.ecdhe, ts, so.finSent)
 	return v, r.obs, true
 }
 
@@ -893,6 +958,112 @@ func runHistory(cd caseDesc, h history, su suiteInfo) (verdicts, observation, bo
 	return v, r.obs, true
 }
 
+// ---------------------------------------------------------------------------- resumption impostors
+//
+// (D) connection 1 (real, honest server) creates a session in the client's cache; connection 2
+// meets a scripted peer that echoes whatever session id the client offers and runs the
+// abbreviated handshake with a master secret of its choice — crossed with what the OTHER users
+// of the shared client cache do meanwhile: nothing, or storing so many sessions that the LRU
+// evicts (and wipes) the entry, before connection 2 looks it up, between SessionCache.Get and
+// the moment loadSession takes its copy, or after loadSession returned.  The interleavings are
+// produced deterministically by a SessionCache wrapper handed to the client through the
+// public Config (stacks.go: raceCache).
+
+var rimpEvents = []string{"live", "evicted-before-get", "evicted-in-window", "evicted-after-load"}
+
+// rimpPeers: "session" = holds the session's master secret and the genuine keys (control: this
+// is what the honest server does); the others hold neither — their certificates are from an
+// untrusted CA and they compute with 48 zero bytes / 48 random bytes.
+var rimpPeers = []string{"session", "zeros", "other"}
+
+func rimpByName(n string) (ev, peer string, ok bool) {
+	parts := strings.Split(n, "/")
+	if len(parts) != 2 {
+		return "", "", false
+	}
+	for _, e := range rimpEvents {
+		for _, p := range rimpPeers {
+			if e == parts[0] && p == parts[1] {
+				return e, p, true
+			}
+		}
+	}
+	return "", "", false
+}
+
+func runResumeImpostor(cd caseDesc, ev, peer string, su suiteInfo) (verdicts, observation, bool) {
+	tw := defaultClient
+	tw.skip = cd.skip
+	cache, rc := newRaceCache(cd.stack)
+	_, scache := newCaches(cd.stack)
+	honest := []string{"srvsig", "srvenc"}
+	var v verdicts
+	v.peer = "script"
+	v.sess = "none"
+	first := runReal(newLink(cd.stack), clientCfg{tweak: tw, suite: su.id, certs: clientCerts(su), cache: cache},
+		serverCfg{suite: su.id, certs: keyPairs(honest, "", ""), cache: scache})
+	master := rc.sessionMaster()
+	ders, _ := certList(first.s2c.last(hsCertificate))
+	if !first.obs.completed || len(master) == 0 || len(ders) < 2 {
+		return v, observation{}, false
+	}
+	lk := newLink(cd.stack)
+	if lk.scriptServer(serverCfg{suite: su.id}) == nil {
+		return v, observation{}, false
+	}
+	chain := []string{"othsig", "othenc"}
+	var secret []byte
+	switch peer {
+	case "session":
+		chain, secret = honest, append([]byte(nil), master...)
+	case "zeros":
+		secret = make([]byte, len(master))
+	default:
+		secret = make([]byte, len(master))
+		_, _ = randRead(secret)
+	}
+	plan := scriptPlan{sendSKX: true, sendCreq: su.ecdhe, resumeSecret: secret}
+	for _, n := range chain {
+		plan.chainDER = append(plan.chainDER, leaves[n].DER)
+	}
+	switch ev {
+	case "evicted-before-get":
+		rc.evictAll()
+	case "evicted-in-window":
+		rc.armWindow()
+	case "evicted-after-load":
+		plan.afterHello = rc.evictAll
+	}
+	rc.resetStats()
+	r, so := runScript(lk, clientCfg{tweak: tw, suite: su.id, certs: clientCerts(su), cache: cache},
+		serverCfg{suite: su.id, certs: keyPairs(chain, "", "")}, plan)
+	// the cached session as the client's lookup saw it
+	hit, fired := rc.stats()
+	if hit {
+		v.sess = fmt.Sprintf("%d:%s:%s", len(ders), b01(chainVerdict(ders, 0, tw)), b01(chainVerdict(ders, 1, tw)))
+	}
+	v.sresume = sessionEchoed(r.c2s, r.s2c)
+	v.sevict = "none"
+	if fired {
+		v.sevict = "window"
+	} else if ev == "evicted-after-load" && hit {
+		v.sevict = "afterload"
+	}
+	v.psecret = "none"
+	if so.resumed && so.finSent {
+		v.psecret = peer
+	}
+	// independent of the scenario's name: the bytes the peer really computed with vs the bytes
+	// of the session the honest handshake put into the client's cache
+	v.sfin = v.sresume && so.resumed && so.finSent && bytes.Equal(so.master, master)
+	ts := truthSKX{signer: chain[0], scr: "this", ssr: "this", intact: true, sparams: chain[1]}
+	if su.ecdhe {
+		ts.sparams = "carried"
+	}
+	fullVerdicts(&v, su, r.c2s, r.s2c, tw, su.ecdhe, ts, so.finSent && !so.resumed)
+	return v, r.obs, true
+}
+
 type cryptoRand struct{}
 
 func (cryptoRand) Read(p []byte) (int, error) { return randRead(p) }
@@ -923,6 +1094,13 @@ func enumerate(o hx.Opts) []caseDesc {
 			}
 			for _, h := range histories {
 				add(st, su.name, "hist:"+h.name, h.second.skip)
+			}
+			for _, ev := range rimpEvents {
+				for _, pr := range rimpPeers {
+					for _, skip := range []bool{false, true} {
+						add(st, su.name, "rimp:"+ev+"/"+pr, skip)
+					}
+				}
 			}
 		}
 	}
@@ -977,6 +1155,12 @@ func runCaseN(cd caseDesc, attempt int) outLine {
 			}
 			cd.skip = h.second.skip
 			v, obs, ran = runHistory(cd, h, su)
+		} else if strings.HasPrefix(cd.scen, "rimp:") {
+			ev, pr, ok := rimpByName(strings.TrimPrefix(cd.scen, "rimp:"))
+			if !ok {
+				return
+			}
+			v, obs, ran = runResumeImpostor(cd, ev, pr, su)
 		} else {
 			sc, ok := scenarioByName(cd.scen)
 			if !ok {
